@@ -390,7 +390,7 @@ def c17(pid, tier, seed):
         # per-shard distinct signatures (shards use different seeds; overlap is possible, so this is an upper bound capped below)
         for i in range(min(distinct, 100000)):
             chk.distinct.add(i)
-        for k in ("TargetIsDir", "ParentIsFile", "DepTargetIsDir", "AboveRoot", "NotExportable", "ExistingTargetIsDir"):
+        for k in ("TargetIsDir", "ParentIsFile", "DepTargetIsDir", "AboveRoot", "NotExportable", "ExistingTargetIsDir", "ExistingTargetEmptied"):
             if chk.coverage_extra.get("injected", {}).get(k, 0) == 0:
                 chk.note_inconclusive(f"obstacle {k} was never injected")
     finally:
